@@ -8,6 +8,7 @@ import (
 	"bytes"
 	"context"
 	"crypto/sha512"
+	_ "embed"
 	"encoding/json"
 	"errors"
 	"flag"
@@ -24,6 +25,9 @@ import (
 	"verif/harness/sched"
 	"verif/harness/trace"
 )
+
+//go:embed f30.bin
+var pinnedF30 []byte
 
 type instance struct {
 	Shape         string
@@ -123,12 +127,41 @@ type runResult struct {
 	stats  sched.Stats
 }
 
+// followersFirst lets every worker but the first run as far as it can (lowest index first) before the first worker moves:
+// followers that find the buckets of their successors empty never fall in step and run to the end of the file, so the first
+// worker meets finished followers with full buckets - the situation in which it empties and skips them (finding F30).
+type followersFirst struct{}
+
+func (followersFirst) Pick(parked []*sched.G, step int, timedOut bool) int {
+	best, bestIdx := -1, 1<<30
+	w0 := -1
+	for i, g := range parked {
+		var idx int
+		if n, err := fmt.Sscanf(g.Name, "w%d", &idx); n == 1 && err == nil {
+			if idx == 0 {
+				w0 = i
+			} else if idx < bestIdx {
+				best, bestIdx = i, idx
+			}
+		}
+	}
+	if best >= 0 {
+		return best
+	}
+	if w0 >= 0 {
+		return w0
+	}
+	return 0
+}
+
 func runOne(num int, in instance, file string, seed int64, cancelAt int, w *trace.Writer, policy string) runResult {
 	r := rand.New(rand.NewSource(seed))
 	var pol sched.Policy
 	switch policy {
 	case "pct":
 		pol = sched.NewPCT(r, 3, 200)
+	case "followersfirst":
+		pol = followersFirst{}
 	default:
 		pol = &sched.Random{R: r}
 	}
@@ -359,6 +392,15 @@ func main() {
 	shapesSeen := map[string]int{}
 	for i := 0; i < *n; i++ {
 		in := genInstance(r, *big)
+		if i == 0 && len(pinnedF30) > 0 {
+			// a pinned instance (found by seed 3): a boundary that the second worker passes by because it lies closer than the minimum
+			// size to its previous cut, inside a zero run; with the followers finishing first, the first worker empties the second
+			// one's bucket, skips it and falls in step with the third (finding F30). Always run, under every policy.
+			in = instance{Shape: "pinned-F30", Data: append([]byte{}, pinnedF30...), Min: 48, Avg: 88, Max: 126, N: 5}
+		}
+		if os.Getenv("VERIF_C02_DUMP") != "" && in.Shape == "zeroruns" && len(in.Data) == 1009 && in.N == 5 {
+			os.WriteFile(os.Getenv("VERIF_C02_DUMP"), in.Data, 0644)
+		}
 		if err := os.WriteFile(file, in.Data, 0644); err != nil {
 			fmt.Fprintln(os.Stderr, err)
 			os.Exit(2)
@@ -374,6 +416,8 @@ func main() {
 			pol := "random"
 			if k%2 == 1 {
 				pol = "pct"
+			} else if k == 0 && (num%2 == 0 || in.Shape == "pinned-F30") {
+				pol = "followersfirst"
 			}
 			rr := runOne(num, in, file, *seed*7919+int64(num), cancelAt, w, pol)
 			if cancelAt < 0 {
